@@ -13,6 +13,8 @@ From RU Require Import Base.Prelude Base.Utf8 Base.Utf8Facts Model.AsciiSet Gen.
   Proofs.C02_AuthMain Proofs.C02_Hist Proofs.C02_HistInst Proofs.C02_SetQF Proofs.C02_Canon Proofs.C02_SetPort
   Proofs.C02_JoinTail Proofs.C02_ReachPartial.
 From RU Require Import Model.Host Proofs.C09_Host Proofs.C16_RT6Model.
+From RU Require Import Model.FormUrlencoded Model.QueryPairs Proofs.C02_Form Proofs.C02_SetCred Proofs.C02_SetCredCanon Proofs.C02_QPort Proofs.C02_Reach3.
+From RU Require Proofs.C15_Ser.
 Open Scope string_scope.
 Open Scope N_scope.
 Open Scope list_scope.
@@ -650,6 +652,176 @@ Example C02_reach_partial_inhabited :
   /\ match ex_hist "a:b c  ?q" [OSetQuery None] with
      | Some u => list_eqb (ser u) (B "a:b c") | None => false end = true.
 Proof. exact reach_partial_example. Qed.
+
+(* ---------- K. Url::query_pairs_mut: the form serializer writes into the query without the parser ---------- *)
+(* K.1  the link between the two crates, over the tables regenerated from BOTH sources: every byte that
+   form_urlencoded::Serializer can push - a byte of the byte_serialized_unchanged class, the replacement of a space
+   (T_FORM_SPACE_OUT), a byte of the percent-encoding table (T_ENC_TABLE: '%' and the upper-case hex digits), the
+   two separators - is left alone by the query state of the URL parser for BOTH scheme kinds: it is in neither
+   T_QUERY nor T_SPECIAL_QUERY, it is not '#', not tab / LF / CR, and it is printable ASCII.  A change of either
+   side alone (form_urlencoded leaving a further byte unescaped, or a further byte in a query encode set) breaks it *)
+Theorem C02_form_query_clean : forall c, form_emits c = true -> query_leaves_alone c = true.
+Proof. exact form_query_clean. Qed.
+Check C02_form_query_clean : forall c,
+  byte_serialized_unchanged c || memb c T_FORM_SPACE_OUT || memb c T_ENC_TABLE
+  || (c =? T_FORM_PUSH_SEP) || (c =? T_FORM_PUSH_EQ) = true ->
+  negb (should_encode T_QUERY c) && negb (should_encode T_SPECIAL_QUERY c) && negb (c =? 35) && negb (is_tnl c)
+  && (32 <? c) && (c <? 127) = true.
+Print Assumptions C02_form_query_clean.
+
+(* the same with the class spelled out *)
+Theorem C02_form_query_clean_explicit : forall c,
+  byte_serialized_unchanged c = true \/ c = 43 \/ c = 37 \/ is_hex_upper c = true \/ c = 38 \/ c = 61 ->
+  should_encode T_QUERY c = false /\ should_encode T_SPECIAL_QUERY c = false /\ c <> 35 /\ is_tnl c = false
+  /\ 32 < c /\ c < 127.
+Proof. exact form_query_clean_explicit. Qed.
+Print Assumptions C02_form_query_clean_explicit.
+
+Example C02_form_query_clean_inhabited :
+  form_emits 65 = true /\ form_emits 42 = true /\ form_emits 43 = true /\ form_emits 37 = true /\ form_emits 38 = true
+  /\ form_emits 39 = false /\ form_emits 126 = false /\ form_emits 35 = false
+  /\ query_leaves_alone 39 = false /\ query_leaves_alone 126 = true.
+Proof. vm_compute. repeat split. Qed.
+
+(* K.2  L2 for query_pairs_mut: one editing session (query_pairs_mut(), any sequence of append_pair /
+   append_key_only / extend_pairs / extend_keys_only / clear / encoding_override with arbitrary arguments, then
+   finish() or drop) on a record of one of the four canonical forms yields a record of a canonical form: the new
+   query is the old one (or nothing, after clear) followed by bytes of the class of K.1.  Same length premise as
+   for the setters *)
+Theorem C02_qpm_Canon : forall dbg hp hpo hd, HostRT hp hpo hd -> forall u ops u',
+  Canon hp hpo hd u -> Forall C15_Ser.op_ok ops -> query_pairs_session dbg u ops = Some u' ->
+  nlen (ser u') <= U32_MAX_P -> Canon hp hpo hd u'.
+Proof. exact qpm_Canon. Qed.
+Check C02_qpm_Canon : forall dbg hp hpo hd, HostRT hp hpo hd -> forall u ops u',
+  Canon hp hpo hd u -> Forall C15_Ser.op_ok ops -> query_pairs_session dbg u ops = Some u' ->
+  nlen (ser u') <= 4294967295 -> Canon hp hpo hd u'.
+Print Assumptions C02_qpm_Canon.
+
+(* the session computed on the common shape pre ++ ["?" q] ++ ["#" f] *)
+Theorem C02_qpm_shape : forall dbg pre se ue hs he hi pt ps q f ops,
+  wf_b (qf_url pre se ue hs he hi pt ps q f) = true -> ascii (ser (qf_url pre se ue hs he hi pt ps q f)) ->
+  Forall C15_Ser.op_ok ops ->
+  exists nq, query_pairs_session dbg (qf_url pre se ue hs he hi pt ps q f) ops = Some (qf_url pre se ue hs he hi pt ps (Some nq) f)
+    /\ (forall P : N -> Prop, (forall c, C15_Bser.form_alpha c = true -> P c) ->
+        Forall P (match q with Some x => x | None => [] end) -> Forall P nq).
+Proof. exact qpm_session_qf. Qed.
+Print Assumptions C02_qpm_shape.
+
+(* K.2b  L2 for set_password and set_username (G3): for every Canon record and every argument the result is Canon.
+   On a record with a non-empty host the userinfo text is replaced by a canonical userinfo (user name and password
+   are the USERINFO encoding of the arguments; an empty password or None removes ':' password, and '@' too when the
+   user name is empty; an empty user name in front of a password gives ":pw@"); records without host (opaque path,
+   no authority, empty host) refuse and stay unchanged.  Uses that a displayed host starts with neither ':' nor '@'
+   (host_text_ok).  Same length premise as for the other setters *)
+Theorem C02_set_password_Canon : forall dbg hp hpo hd u pw u' s, Canon hp hpo hd u -> usv_opt pw ->
+  set_password dbg u pw = Some (u', s) -> nlen (ser u') <= U32_MAX_P -> Canon hp hpo hd u'.
+Proof. exact set_password_Canon. Qed.
+Check C02_set_password_Canon : forall dbg hp hpo hd u pw u' s, Canon hp hpo hd u ->
+  (match pw with Some x => usv_list x | None => True end) ->
+  set_password dbg u pw = Some (u', s) -> nlen (ser u') <= 4294967295 -> Canon hp hpo hd u'.
+Print Assumptions C02_set_password_Canon.
+
+Theorem C02_set_username_Canon : forall dbg hp hpo hd u un u' s, Canon hp hpo hd u -> usv_list un ->
+  set_username dbg u un = Some (u', s) -> nlen (ser u') <= U32_MAX_P -> Canon hp hpo hd u'.
+Proof. exact set_username_Canon. Qed.
+Check C02_set_username_Canon : forall dbg hp hpo hd u un u' s, Canon hp hpo hd u -> usv_list un ->
+  set_username dbg u un = Some (u', s) -> nlen (ser u') <= 4294967295 -> Canon hp hpo hd u'.
+Print Assumptions C02_set_username_Canon.
+
+(* the quirks port setter (url::quirks::set_port): the argument goes through the port state of the parser in the
+   setter context - a port <= 65535 other than the scheme's default, or none - then set_port_internal *)
+Theorem C02_q_set_port_Canon : forall dbg hp hpo hd u v u' s, Canon hp hpo hd u ->
+  q_set_port dbg u v = Some (u', s) -> nlen (ser u') <= U32_MAX_P -> Canon hp hpo hd u'.
+Proof. exact q_set_port_Canon. Qed.
+Check C02_q_set_port_Canon : forall dbg hp hpo hd u v u' s, Canon hp hpo hd u ->
+  q_set_port dbg u v = Some (u', s) -> nlen (ser u') <= 4294967295 -> Canon hp hpo hd u'.
+Print Assumptions C02_q_set_port_Canon.
+
+(* the two setters computed on the frame  scheme "://" user rest X  (rest = "" | "@" | ":" pw "@"; X = everything from
+   the host on, offsets behind the userinfo stored relative to its start) *)
+Theorem C02_set_password_shape : forall dbg sch X dh dp dq df hi pt Un Ur p, usv_list p -> p <> [] ->
+  cannot_have_credentials_or_port (sh_url sch X dh dp dq df hi pt Un Ur) = Some false ->
+  set_password dbg (sh_url sch X dh dp dq df hi pt Un Ur) (Some p)
+  = Some (sh_url sch X dh dp dq df hi pt Un (58 :: uenc p ++ [64]), SOk).
+Proof. exact set_password_some_sh. Qed.
+Print Assumptions C02_set_password_shape.
+
+Theorem C02_set_username_shape : forall dbg sch X dh dp dq df hi pt Un P un, usv_list un ->
+  cannot_have_credentials_or_port (sh_url sch X dh dp dq df hi pt Un (58 :: P ++ [64])) = Some false ->
+  set_username dbg (sh_url sch X dh dp dq df hi pt Un (58 :: P ++ [64])) un
+  = Some (if list_eqb Un (utf8_encode un) then sh_url sch X dh dp dq df hi pt Un (58 :: P ++ [64])
+          else sh_url sch X dh dp dq df hi pt (uenc un) (58 :: P ++ [64]), SOk).
+Proof. exact set_username_pw_sh. Qed.
+Print Assumptions C02_set_username_shape.
+
+Example C02_cred_inhabited :
+  match ex_hist "a://h.x/p" [OSetUsername (B "u s")] with Some u => list_eqb (ser u) (B "a://u%20s@h.x/p") | None => false end = true
+  /\ match ex_hist "a://h.x/p" [OSetUsername (B "u s"); OSetPassword (Some (B "p:w"))] with
+     | Some u => list_eqb (ser u) (B "a://u%20s:p%3Aw@h.x/p") | None => false end = true
+  /\ match ex_hist "a://h.x/p" [OSetUsername (B "u s"); OSetPassword (Some (B "p:w")); OSetUsername []] with
+     | Some u => list_eqb (ser u) (B "a://:p%3Aw@h.x/p")
+                 && match parse_url true ex_hp ex_hp ex_hd None None (ser u) with POk v => url_eqb v u | _ => false end
+     | None => false end = true
+  /\ match ex_hist "a://h.x/p" [OSetUsername (B "u s"); OSetPassword (Some (B "p:w")); OSetUsername []; OSetPassword None] with
+     | Some u => list_eqb (ser u) (B "a://h.x/p") | None => false end = true.
+Proof. exact cred_example. Qed.
+
+(* K.3  the quantifier with query_pairs_mut.  Reachable2 (section A) has no constructor for Url::query_pairs_mut -
+   a public mutator whose result does not come out of the parser; Reachable3 = Reachable2 + such sessions *)
+Definition C02_full_statement3 : Prop := C02_statement3.
+
+Theorem C02_statement3_implies_statement : C02_statement3 -> C02_statement.
+Proof. exact statement3_implies_2. Qed.
+Print Assumptions C02_statement3_implies_statement.
+
+(* C02_statement3 restricted to the histories of C02_reach_partial extended by set_password / set_username calls with
+   arbitrary arguments, by the quirks setters username / password / search / hash (wrappers of proved setters) and port, and by
+   query_pairs_mut sessions (ReachC2; canon_op = the ten operations with a proved L2) *)
+Theorem C02_reach_partial2 : forall dbg hp hpo hd, HostOK2 hp hpo hd -> forall u, ReachC2 dbg hp hpo hd u ->
+  Fixpoint_of_reparse dbg hp hpo hd u /\ wf_b u = true /\ ascii (ser u).
+Proof. exact reach_partial2. Qed.
+Check C02_reach_partial2 : forall dbg hp hpo hd, HostOK2 hp hpo hd -> forall u, ReachC2 dbg hp hpo hd u ->
+  parse_url dbg hp hpo hd None None (utf8_lossy (ser u)) = POk u /\ wf_b u = true /\ ascii (ser u).
+Print Assumptions C02_reach_partial2.
+
+Theorem C02_reach_partial2_in_statement : forall dbg hp hpo hd, HostOK2 hp hpo hd -> forall u,
+  ReachC2 dbg hp hpo hd u -> Reachable3 dbg hp hpo hd u.
+Proof. exact ReachC2_Reachable3. Qed.
+Print Assumptions C02_reach_partial2_in_statement.
+
+(* ... and the serialization of every such record resolves to the record itself against EVERY base record b (C08's
+   absolute law, so far proved for no-base parse results only - Properties/C08.v C08_absolute_nonfile2 - here for
+   records produced by joins, setters and query_pairs_mut sessions as well) *)
+Theorem C02_reach_partial2_absolute : forall dbg hp hpo hd, HostOK2 hp hpo hd -> forall u b, ReachC2 dbg hp hpo hd u ->
+  parse_url dbg hp hpo hd None (Some b) (utf8_lossy (ser u)) = POk u.
+Proof. exact reach_absolute. Qed.
+Check C02_reach_partial2_absolute : forall dbg hp hpo hd, HostOK2 hp hpo hd -> forall u b, ReachC2 dbg hp hpo hd u ->
+  parse_url dbg hp hpo hd None (Some b) (utf8_lossy (ser u)) = POk u.
+Print Assumptions C02_reach_partial2_absolute.
+
+Theorem C02_reach_partial2_extends : forall dbg hp hpo hd u, ReachC dbg hp hpo hd u -> ReachC2 dbg hp hpo hd u.
+Proof. exact ReachC_C2. Qed.
+Print Assumptions C02_reach_partial2_extends.
+
+Theorem C02_reach_partial2_model : forall dbg idna, IdnaOK idna -> forall u,
+  ReachC2 dbg (host_parse idna) host_parse_opaque host_display u ->
+  Fixpoint_of_reparse dbg (host_parse idna) host_parse_opaque host_display u /\ wf_b u = true /\ ascii (ser u).
+Proof. exact (fun dbg idna OK => reach_partial2 dbg _ _ _ (HostOK2_model idna OK)). Qed.
+Print Assumptions C02_reach_partial2_model.
+
+(* non-vacuity: http://h/p?a='#f -> query_pairs_mut().append_pair("k'", "v w~").append_key_only("*") gives
+   http://h/p?a=%27&k%27=v+w%7E&*#f , a fixpoint; a:b c -> query_pairs_mut().clear() gives "a:b c?" *)
+Example C02_qpm_inhabited :
+  match ex_qpm "http://h/p?a='#f" [OpAppendPair (B "k'") (B "v w~"); OpAppendKeyOnly (B "*")] with
+  | Some u => list_eqb (ser u) (B "http://h/p?a=%27&k%27=v+w%7E&*#f")
+              && match parse_url true ex_hp ex_hp ex_hd None None (ser u) with POk v => url_eqb v u | _ => false end
+  | None => false
+  end = true
+  /\ match ex_qpm "a:b c" [OpClear] with
+     | Some u => list_eqb (ser u) (B "a:b c?")
+                 && match parse_url true ex_hp ex_hp ex_hd None None (ser u) with POk v => url_eqb v u | _ => false end
+     | None => false end = true.
+Proof. exact qpm_example. Qed.
 
 (* ---------- F. every excluded class contains a history that is not a fixpoint ---------- *)
 Theorem C02_F_C03_5_refuted :
